@@ -262,6 +262,9 @@ func (n *Net) Count(name string, d int) {
 
 func (n *Net) countL(name string, d int) { n.Counters[name] += d }
 
+// CountLocked is Count for code that already runs under the network lock (fault hooks).
+func (n *Net) CountLocked(name string, d int) { n.Counters[name] += d }
+
 // Logf appends a line to the canonical event log (hash only unless KeepLog).
 // Never draws from a PRNG, never reads a real clock. Caller may hold n.mu or not:
 // the log state is only touched under logMu.
